@@ -1,9 +1,101 @@
 package main
 
+// Replay: attach a concrete failing input, run on the REAL code of the working
+// tree, to a failed obligation.  Two kinds of harness, both Go tests injected
+// with `go test -overlay` (nothing is written into the repository):
+//   - bounded searches over small universes that compare the real functions with an
+//     executable transcription of the contract's spec functions (cache, filters);
+//   - scripted scenarios for the actor obligations whose failure was confirmed by
+//     such a scenario (ticker, watch session, watcher, IngressPods, typed monitor, RC filter).
+// A replay never decides anything: a failed obligation is a violation whether or not
+// an input is found; without one the VIOLATION line ends with no-failing-input-found.
+
+import (
+	"encoding/json"
+	"fmt"
+	"os"
+	"os/exec"
+	"path/filepath"
+	"regexp"
+	"strings"
+	"sync"
+	"time"
+)
+
 type replayResult struct {
 	found bool
 	text  string
 }
 
-// tryReplay attempts to attach a concrete failing input (run on the real code) to a failed obligation.
-func tryReplay(e *engine, o *oblig, prop string) replayResult { return replayResult{} }
+type harness struct {
+	fn   *regexp.Regexp
+	pkg  string // package directory relative to the repository root
+	file string // under /verif/replay
+	test string
+	what string
+}
+
+var harnesses = []harness{
+	{regexp.MustCompile(`^\(\*kcache\._cache\)\.(doSync|doUpdate|doRefilter|doList|createKey|createEntry)/`), ".", "cache_search_test.go.txt", "TestReplaySearchCache", "bounded search: 2 keys x 5 versions x 2 labels, 4 filters, contents <= 2 entries, lists <= 2 elements, real functions vs executable reference semantics"},
+	{regexp.MustCompile(`^\(\*kcache\._ticker\)\.`), ".", "d5_test.go.txt", "TestReplayD5", "scenario: Reset() after the fired timer value was consumed"},
+	{regexp.MustCompile(`^\(\*kcache\._watchSession\)\.stop/`), ".", "d7_test.go.txt", "TestReplayD7", "scenario: Watch() that returns only on context cancellation"},
+	{regexp.MustCompile(`^\(\*kcache\._watcher\)\.run/`), ".", "d4_test.go.txt", "TestReplayD4", "scenario: watch reconnect with the refresh period far away"},
+	{regexp.MustCompile(`^join\.IngressPods`), "join", "d6_test.go.txt", "TestReplayD6", "scenario: create/close cycles of IngressPods, goroutine census"},
+	{regexp.MustCompile(`^types/pod\.NewMonitor\$`), "types/pod", "d8_test.go.txt", "TestReplayD8", "scenario: foreign-typed object on a typed controller's watch"},
+	{regexp.MustCompile(`^types/replicationcontroller\.PodsFilter/`), "types/replicationcontroller", "d3_test.go.txt", "TestReplayD3", "inputs: RC in another namespace; selector-less RC with template labels"},
+	{regexp.MustCompile(`^\(?\*?filter\.|^filter\.`), "filter", "filter_search_test.go.txt", "TestReplaySearchFilters", "bounded search: filter terms up to depth 2 over a small universe, real Accept/Equals vs executable semantics"},
+}
+
+var replayCache = map[string]replayResult{}
+var replayMu sync.Mutex
+
+func tryReplay(e *engine, o *oblig, prop string) replayResult {
+	var h *harness
+	for i := range harnesses {
+		if harnesses[i].fn.MatchString(o.name) {
+			h = &harnesses[i]
+			break
+		}
+	}
+	if h == nil {
+		return replayResult{}
+	}
+	src := filepath.Join("/verif/replay", h.file)
+	if _, err := os.Stat(src); err != nil {
+		return replayResult{}
+	}
+	replayMu.Lock()
+	defer replayMu.Unlock()
+	if r, ok := replayCache[h.file]; ok {
+		return r
+	}
+	dir, _ := os.MkdirTemp("", "kvc-replay")
+	defer os.RemoveAll(dir)
+	target := filepath.Join(e.repo, h.pkg, "zz_replay_verif_test.go")
+	ov, _ := json.Marshal(map[string]map[string]string{"Replace": {target: src}})
+	ovf := filepath.Join(dir, "overlay.json")
+	os.WriteFile(ovf, ov, 0644)
+	t0 := time.Now()
+	cmd := exec.Command("go", "test", "-overlay", ovf, "-vet=off", "-count=1", "-timeout", "120s", "-run", "^"+h.test, "./"+h.pkg)
+	cmd.Dir = e.repo
+	cmd.Env = append(os.Environ(), "GOFLAGS=-mod=mod", "GOPROXY=off", "GOSUMDB=off", "GOTOOLCHAIN=local")
+	out, err := cmd.CombinedOutput()
+	var keep []string
+	for _, l := range strings.Split(string(out), "\n") {
+		if strings.Contains(l, "DEBUG:") || strings.Contains(l, "WARN:") || strings.TrimSpace(l) == "" {
+			continue
+		}
+		keep = append(keep, l)
+		if len(keep) > 40 {
+			break
+		}
+	}
+	hdr := fmt.Sprintf("harness: /verif/replay/%s (%s)\ncommand: cd %s && go test -overlay <%s -> %s> -vet=off -count=1 -timeout 120s -run '^%s' ./%s   (%.1fs)\n",
+		h.file, h.what, e.repo, target, src, h.test, h.pkg, time.Since(t0).Seconds())
+	r := replayResult{text: hdr + strings.Join(keep, "\n")}
+	if err != nil && strings.Contains(string(out), "--- FAIL") {
+		r.found = true
+	}
+	replayCache[h.file] = r
+	return r
+}
